@@ -543,10 +543,10 @@ def stayKeys (multi : Bool) (src dst : List Nat) : List Nat :=
 /-- `MergeTo(TreeSet&)` :936-978 for empty TreeTraits and equal memory managers -/
 def mergeTo (cs : Cells) (src dst : TSet) : Cells × TSet × TSet :=
   if src.keys.isEmpty then (cs, src, dst)                          -- :942-944
-  else if dst.keys.isEmpty then                                    -- :948-956 contents are swapped, both versions incremented
-    (bump (bump cs src.cell) dst.cell,
-     { src with keys := dst.keys, root := dst.root, params := dst.params },
-     { dst with keys := src.keys, root := src.root, params := src.params })
+  else if dst.keys.isEmpty then                                    -- :948-962 the destination (node params created if absent, an empty
+    (bump (bump cs src.cell) dst.cell,                             --   root node destroyed) takes over the source's root; the source keeps
+     { src with keys := [], root := false },                       --   its node params; both versions incremented
+     { dst with keys := src.keys, root := src.root, params := true })
   else if ordered src.multi src.keys dst.keys then                 -- :958-971 pvMergeFast
     (bump (bump cs src.cell) dst.cell, { src with keys := [], root := false }, { dst with keys := src.keys ++ dst.keys })
   else if ordered src.multi dst.keys src.keys then
@@ -1454,8 +1454,8 @@ def incSitesHashSet : List (String × String) :=
   [("Clear", "HSet.clear"), ("Reserve", "HSet.reserve"), ("pvAddNogrow<incCount = true>", "HSet.addNew"), ("pvRemove", "HSet.remove / removeKey / removeIf / mergeTo")]
 /-- functions of TreeSet.h containing `IncVersion()` -/
 def incSitesTreeSet : List (String × String) :=
-  [("Clear", "TSet.clear"), ("Remove(begin, end)", "TSet.removeSpan"), ("MergeTo: swap when the destination is empty (source)", "TSet.mergeTo"),
-   ("MergeTo: swap when the destination is empty (destination)", "TSet.mergeTo"), ("MergeTo: pvMergeFast (source)", "TSet.mergeTo"),
+  [("Clear", "TSet.clear"), ("Remove(begin, end)", "TSet.removeSpan"), ("MergeTo: the destination is empty (source)", "TSet.mergeTo"),
+   ("MergeTo: the destination is empty (destination)", "TSet.mergeTo"), ("MergeTo: pvMergeFast (source)", "TSet.mergeTo"),
    ("MergeTo: pvMergeFast (destination)", "TSet.mergeTo"), ("pvAdd", "TSet.addAt"), ("pvRemove", "TSet.removeAt")]
 /-- functions of HashMultiMap.h containing `++mValueCrew.GetValueVersion()` -/
 def incSitesValue : List (String × String) :=
